@@ -19,6 +19,7 @@ type VerifCounters struct {
 	UnackedSettings   int
 	MaxClientStreamID uint32
 	InGoAway          bool
+	GoAwayCode        uint32
 }
 
 // VerifCounters returns ok=false when the serve loop has exited.
@@ -35,6 +36,7 @@ func (sc *serverConn) VerifCounters() (c VerifCounters, ok bool) {
 			UnackedSettings:   sc.unackedSettings,
 			MaxClientStreamID: sc.maxClientStreamID,
 			InGoAway:          sc.inGoAway,
+			GoAwayCode:        uint32(sc.goAwayCode),
 		}
 	}
 	select {
